@@ -3,6 +3,7 @@
 mod l_clock;
 mod l_codec;
 mod l_history;
+mod l_pl;
 mod l_prog;
 mod l_sched;
 
@@ -33,6 +34,7 @@ fn main() {
             "prog" => l_prog::run(&words),
             "sched" => l_sched::run(&words),
             "clock" => l_clock::run(&words),
+            "pl" => l_pl::run(&words),
             _ => {
                 eprintln!("usage: vharness <codec>");
                 std::process::exit(2);
